@@ -14,7 +14,7 @@ ID = 'C13'
 LEVEL = 'exploration'
 RULE = ('stratified: 5 profile types x smearing on/off x drift class {0, +-tiny, +-0.5, +-1, +-1.5, +-4 px/step, random} x '
         'width class {0.05..0.5, 0.5..2, 2..10 px} x start position {inside, on a channel centre, within one channel of an '
-        'edge, outside}, both orientations, unit-carrying and plain arguments; non-trivial = the general signal has >=1 '
+        'edge, outside, entering the band only through the smeared sub-steps of the last row}, both orientations, unit-carrying and plain arguments; non-trivial = the general signal has >=1 '
         'mandatory pixel in the frame; distinct = distinct descriptor')
 ASSUMPTIONS = ['mandatory pixels: general signal non-zero for box / truncated sinc^2; within FWHM/2 of a (smearing-copy) centre for '
                'gaussian / lorentzian / voigt, the voigt FWHM being computed numerically from the reference profile',
@@ -29,7 +29,7 @@ def required(tier):
     b = {f'profile:{p}': 20 for p in PROFILES}
     b.update({'smear:on': 100, 'smear:off': 100, 'drift:neg': 100, 'drift:zero': 20, 'drift:pos': 100,
               'width:sub-channel': 50, 'start:outside': 10, 'start:edge': 10, 'units:quantity': 50,
-              'smear:drift-exact-multiple-of-unit': 40})
+              'smear:drift-exact-multiple-of-unit': 40, 'start:edge-entry': 40})
     return {'buckets': b, 'counters': {'mandatory_pixels': 5000}, 'checks': 500, 'nontrivial': 200}
 
 
@@ -56,6 +56,15 @@ def gen_cases(seed, tier):
             x, sc = float(common.pick(rng, [-1.0, -0.5, 0.0, 0.3, F - 1.3, F - 1.0, F - 0.5, F + 0.0])), 'edge'
         else:
             x, sc = float(common.pick(rng, [-rng.uniform(1.5, 8), F + rng.uniform(0.5, 8)])), 'outside'
+        if i % 25 == 11:
+            # edge entry: the track is still a few channels OUTSIDE the band at the last time sample, but the smeared sub-steps of
+            # the last row (up to one more time step of drift) reach the edge channel
+            sc, smear = 'edge-entry', True
+            d = float(common.pick(rng, [4.0, 3.0, -4.0, -3.0, 2.5, -2.5]))
+            w = float(rng.uniform(0.3, 1.0))
+            Tn = g['tchans']
+            out_by = float(rng.uniform(1.6, abs(d) - 0.3))          # distance of the last centre from the edge channel
+            x = (-out_by - d * (Tn - 1)) if d > 0 else (F - 1 + out_by - d * (Tn - 1))
         cases.append(dict(geom=g, profile=prof, smear=smear, d=d, w=w, x=x, start_class=sc,
                           level=float(common.pick(rng, [1.0, 10.0, 250.0])), units=bool(rng.integers(2)),
                           sub=int(rng.integers(2 ** 31))))
